@@ -161,6 +161,10 @@ def variants(t):
         ("same-message-twice:no-effect", {"asg1a": B("EQ", ID("gcnt"), I(1)), "asg1b": B("EQ", ID("gflag"), ID("gflag"))}, {}),
         ("same-message-twice:not-a-structure", {"guard1": B("GE", ("DOT", ("DOT", ID("gcnt"), "fa", 0), "fb", 0), I(0))}, {}),
         ("same-message-twice:unknown-identifier", {"guard1": B("AND", B("GE", ID("nosuch"), I(0)), B("GE", B("PLUS", ID("nosuch"), ID("nosuch")), I(0)))}, {}),
+        # names the XML reader refuses for templates and locations (keywords of the query and 3.x syntaxes): refused however the
+        # <name> element is laid out
+        ("keyword-as-location-name", {}, {"l2name": "inf"}),
+        ("keyword-as-template-name", {}, {"t2name": "simulation"}),
         ("syntax-error-in-label", {}, {"assign2": "gpair.fb = ( gflag"}),
         ("syntax-error-in-declaration", {}, {"t1decl": "clock lclk;\nint lcnt = ;\nint later;"}),
     ]
@@ -263,6 +267,13 @@ def rewrites(slots, raw, tier):
     # r1: layout at every token boundary of every block
     for bi, (name, _tpl) in enumerate(BLOCKS):
         if name in NAME_BLOCKS:
+            # a <name> element is not parsed by the grammar: white space around the identifier is the only layout there is
+            for c in (0, len(base[bi])):
+                for iname, ins in LAYOUT_INSERTS:
+                    if ins.strip() == "":
+                        b2 = list(base)
+                        b2[bi] = base[bi][:c] + ins + base[bi][c:]
+                        yield ("layout:" + iname, "%s@%d" % (name, c), b2, None)
             continue
         text = base[bi]
         toks = tokens(text)
